@@ -51,6 +51,22 @@ func XRKindOf(b rtcp.ReportBlock) XRKind {
 // XRBlockType is the RFC 3611 registry: block type octet of each defined kind.
 func XRBlockType(k XRKind) uint8 { return uint8(k) + 1 }
 
+// seqRange draws the begin / end sequence numbers of a block that reports on n entries: in half of
+// the cases independent boundary-biased values, otherwise a range that means something — end is
+// begin + n, one less or one more (the reading of "end" as inclusive or exclusive), anywhere on
+// the ring including across the wrap. Nothing on the wire depends on the relation; a decoder that
+// "repairs" blocks whose fields agree in some way does.
+func seqRange(r *core.Rand, n int) (uint16, uint16) {
+	if r.Bool() {
+		return r.B16(), r.B16()
+	}
+	begin := r.B16()
+	if r.Chance(1, 4) {
+		begin = uint16(65536 - r.Intn(n+3))
+	}
+	return begin, begin + uint16(n+r.Pick(-1, 0, 1))
+}
+
 func xrChunk(r *core.Rand) rtcp.Chunk {
 	switch r.Intn(6) {
 	case 0:
@@ -92,17 +108,22 @@ func XRBlock(r *core.Rand, k XRKind, unaligned bool) rtcp.ReportBlock {
 		for i := 0; i < n; i++ {
 			cs = append(cs, xrChunk(r))
 		}
+		begin, end := seqRange(r, len(cs))
 		if k == XLoss {
-			return &rtcp.LossRLEReportBlock{T: uint8(r.Intn(16)), SSRC: r.B32(), BeginSeq: r.B16(), EndSeq: r.B16(), Chunks: cs}
+			return &rtcp.LossRLEReportBlock{T: uint8(r.Intn(16)), SSRC: r.B32(), BeginSeq: begin, EndSeq: end, Chunks: cs}
 		}
-		return &rtcp.DuplicateRLEReportBlock{T: uint8(r.Intn(16)), SSRC: r.B32(), BeginSeq: r.B16(), EndSeq: r.B16(), Chunks: cs}
+		return &rtcp.DuplicateRLEReportBlock{T: uint8(r.Intn(16)), SSRC: r.B32(), BeginSeq: begin, EndSeq: end, Chunks: cs}
 	case XPRT:
 		n := ll(40)
 		var ts []uint32
 		for i := 0; i < n; i++ {
 			ts = append(ts, r.B32())
 		}
-		return &rtcp.PacketReceiptTimesReportBlock{T: uint8(r.Intn(16)), SSRC: r.B32(), BeginSeq: r.B16(), EndSeq: r.B16(), ReceiptTime: ts}
+		if n > 0 && r.Chance(1, 3) {
+			ts[r.Pick(0, n-1, n-1)] = uint32(r.Pick(0, 0, 1, 0xFFFFFFFF))
+		}
+		begin, end := seqRange(r, n)
+		return &rtcp.PacketReceiptTimesReportBlock{T: uint8(r.Intn(16)), SSRC: r.B32(), BeginSeq: begin, EndSeq: end, ReceiptTime: ts}
 	case XRRT:
 		return &rtcp.ReceiverReferenceTimeReportBlock{NTPTimestamp: r.B64()}
 	case XDLRR:
